@@ -1,0 +1,10 @@
+//go:build verif
+
+package roprometheus
+
+// VerifSetBypassLicenseCheck lets the runtime-verification harness switch the
+// instrumented code path on without a vendor-signed licence key. Only
+// available with the `verif` build tag.
+func VerifSetBypassLicenseCheck(v bool) {
+	bypassLicenseCheck = v
+}
